@@ -858,7 +858,8 @@ class RtspAdapter:
         adapter = self
 
         def remaining():
-            return deadlines[CUR.get()] - asyncio.get_event_loop().time()
+            dl, r = CUR.get()       # the session the running caller belongs to
+            return dl[r] - asyncio.get_event_loop().time()
 
         class Conn(HttpConnection):
             async def send_and_receive(self, *a, **kw):
@@ -936,49 +937,51 @@ async def settle():
         await asyncio.sleep(0)
 
 
-async def run_script(transport, base, events, subs=DEFAULT_SUBS):
-    """Run one script on the real code; returns the per-event observations."""
-    loop = asyncio.get_event_loop()
-    t0 = loop.time()
-    obs = Obs()
-    deadlines, tdead = {}, []
-    seen = 0
-    for e in events:
-        if e[0] in SENDS:
-            seen += 1
-        if e[0] == "t":
-            d = t0 + 1000.0 * (len(tdead) + 1)
-            tdead.append(d)
-            if e[1] < seen:  # a timer exists only once the request was made
-                deadlines.setdefault(e[1], d)
-    nsend = sum(1 for e in events if e[0] in SENDS)
-    for r in range(nsend):
-        deadlines.setdefault(r, t0 + 1.0e7)
-    for i in range(sum(1 for e in events if e[0] == "F")):
-        deadlines[FAILED + i] = t0 + 1.0e7
+class Sess:
+    """one protocol / connection object of a transport running one script"""
 
-    obs.begin()
-    orig_subs = subs
-    subs, _, frames = (subs or "").partition("#")
-    if transport == "mrp":
-        ad = MrpAdapter(obs, base, subs or DEFAULT_SUBS)
-    elif transport == "tunnel":
-        ad = TunnelAdapter(obs, base, subs or DEFAULT_SUBS)
-    elif transport == "companion":
-        ad = CompanionAdapter(obs, base)
-    elif transport == "http":
-        ad = HttpAdapter(obs, base)
-    else:
-        ad = RtspAdapter(obs, base, deadlines)
-    if orig_subs and hasattr(ad, "subs_text"):
-        ad.subs_text = orig_subs
-    obs.steps.clear()
-    plan = frame_plan(events, [int(x) for x in frames.split(",")] if frames else [])
+    def __init__(self, transport, base, events, subs, t0, tdead):
+        self.transport, self.events, self.tdead = transport, events, tdead
+        self.loop = asyncio.get_event_loop()
+        self.obs = obs = Obs()
+        self.deadlines = deadlines = {}
+        seen = ti = 0
+        for e in events:
+            if e[0] in SENDS:
+                seen += 1
+            if e[0] == "t":
+                if e[1] < seen:  # a timer exists only once the request was made
+                    deadlines.setdefault(e[1], tdead[ti])
+                ti += 1
+        for r in range(sum(1 for e in events if e[0] in SENDS)):
+            deadlines.setdefault(r, t0 + 1.0e7)
+        for i in range(sum(1 for e in events if e[0] == "F")):
+            deadlines[FAILED + i] = t0 + 1.0e7
+        obs.begin()
+        orig_subs = subs
+        subs, _, frames = (subs or "").partition("#")
+        if transport == "mrp":
+            ad = MrpAdapter(obs, base, subs or DEFAULT_SUBS)
+        elif transport == "tunnel":
+            ad = TunnelAdapter(obs, base, subs or DEFAULT_SUBS)
+        elif transport == "companion":
+            ad = CompanionAdapter(obs, base)
+        elif transport == "http":
+            ad = HttpAdapter(obs, base)
+        else:
+            ad = RtspAdapter(obs, base, deadlines)
+        if orig_subs and hasattr(ad, "subs_text"):
+            ad.subs_text = orig_subs
+        self.ad = ad
+        obs.steps.clear()
+        self.plan = frame_plan(events, [int(x) for x in frames.split(",")] if frames else [])
+        self.tasks, self.ftasks, self.ti = [], [], 0
 
-    async def caller(r, obj):
-        CUR.set(r)
+    async def caller(self, r, obj):
+        CUR.set((self.deadlines, r))
+        obs = self.obs
         try:
-            k, v = await ad.request(r, deadlines[r] - loop.time(), obj)
+            k, v = await self.ad.request(r, self.deadlines[r] - self.loop.time(), obj)
             obs.add("dlv", r, k, v)
         except asyncio.CancelledError:
             raise
@@ -987,11 +990,12 @@ async def run_script(transport, base, events, subs=DEFAULT_SUBS):
         except Exception as ex:  # observation, never a crash
             obs.add("err", r, type(ex).__name__)
 
-    async def failing_caller(fid):
+    async def failing_caller(self, fid):
         """a caller whose transmission raises; it is not one of the numbered requests"""
-        CUR.set(fid)
+        CUR.set((self.deadlines, fid))
+        obs = self.obs
         try:
-            k, v = await ad.request(fid, 1.0e7, None)
+            k, v = await self.ad.request(fid, 1.0e7, None)
             obs.add("fdlv", k, v)
         except asyncio.CancelledError:
             raise
@@ -1000,46 +1004,85 @@ async def run_script(transport, base, events, subs=DEFAULT_SUBS):
         except Exception as ex:
             obs.add("ferr", type(ex).__name__)
 
-    tasks = []
-    ftasks = []
-    ti = 0
-    try:
-        for ei, e in enumerate(events):
-            obs.begin()
-            try:
-                if e[0] == "F":
-                    ad.fail_next = 1 + len(ftasks) % 2     # alternate the place of the fault
-                    ftasks.append(asyncio.ensure_future(failing_caller(FAILED + len(ftasks))))
-                elif e[0] in SENDS:
-                    obj = e[1] if e[0] == "S" and e[1] < len(tasks) else None
-                    tasks.append(asyncio.ensure_future(caller(len(tasks), obj)))
-                elif e[0] == "b":
-                    ad.burn()
-                elif e[0] in MSG and transport == "tunnel":
-                    ad.recv(e[0], e[1], e[2], last=plan[ei] == ei)
-                elif e[0] in MSG:
-                    ad.recv(e[0], e[1], e[2])
-                else:
-                    d = tdead[ti]
-                    ti += 1
-                    await asyncio.sleep(d + 0.25 - loop.time())
-            except Exception as ex:
-                obs.add("raised", type(ex).__name__)
-            await settle()
-            ad.fail_next = 0
-        obs.begin()  # anything after the last settle goes to an extra (unchecked) slot
-    finally:
-        for t in tasks + ftasks:
-            t.cancel()
-        if tasks or ftasks:
-            await asyncio.gather(*(tasks + ftasks), return_exceptions=True)
+    async def step(self, ei):
+        e, ad, obs, tasks, ftasks = self.events[ei], self.ad, self.obs, self.tasks, self.ftasks
+        obs.begin()
+        try:
+            if e[0] == "F":
+                ad.fail_next = 1 + len(ftasks) % 2     # alternate the place of the fault
+                ftasks.append(asyncio.ensure_future(self.failing_caller(FAILED + len(ftasks))))
+            elif e[0] in SENDS:
+                obj = e[1] if e[0] == "S" and e[1] < len(tasks) else None
+                tasks.append(asyncio.ensure_future(self.caller(len(tasks), obj)))
+            elif e[0] == "b":
+                ad.burn()
+            elif e[0] in MSG and self.transport == "tunnel":
+                ad.recv(e[0], e[1], e[2], last=self.plan[ei] == ei)
+            elif e[0] in MSG:
+                ad.recv(e[0], e[1], e[2])
+            else:
+                d = self.tdead[self.ti]
+                self.ti += 1
+                await asyncio.sleep(d + 0.25 - self.loop.time())
+        except Exception as ex:
+            obs.add("raised", type(ex).__name__)
         await settle()
-        if hasattr(ad, "restore"):
-            ad.restore()
-    steps = obs.steps[:len(events)]
-    if transport == "tunnel":
-        steps = regroup(events, steps, plan)
-    return steps, ad
+        ad.fail_next = 0
+
+    async def finish(self):
+        self.obs.begin()  # anything after the last settle goes to an extra (unchecked) slot
+        for t in self.tasks + self.ftasks:
+            t.cancel()
+        if self.tasks or self.ftasks:
+            await asyncio.gather(*(self.tasks + self.ftasks), return_exceptions=True)
+        await settle()
+        if hasattr(self.ad, "restore"):
+            self.ad.restore()
+
+    def result(self):
+        steps = self.obs.steps[:len(self.events)]
+        if self.transport == "tunnel":
+            steps = regroup(self.events, steps, self.plan)
+        return steps, self.ad
+
+
+async def run_script(transport, base, events, subs=DEFAULT_SUBS):
+    """Run one script on the real code; returns the per-event observations."""
+    t0 = asyncio.get_event_loop().time()
+    nt = sum(1 for e in events if e[0] == "t")
+    sess = Sess(transport, base, events, subs, t0, [t0 + 1000.0 * (k + 1) for k in range(nt)])
+    try:
+        for ei in range(len(events)):
+            await sess.step(ei)
+    finally:
+        await sess.finish()
+    return sess.result()
+
+
+async def run_pair(transport, base, info, subs):
+    """TWO protocol / connection objects of one transport alive at once, identical identifiers in
+    flight on each; their scripts interleaved as `order` says.  Each is observed separately."""
+    t0 = asyncio.get_event_loop().time()
+    scripts = {"A": info["a"], "B": info["b"]}
+    rank, tdead, pos = 0, {"A": [], "B": []}, {"A": 0, "B": 0}
+    for who in info["order"]:
+        if scripts[who][pos[who]][0] == "t":
+            rank += 1
+            tdead[who].append(t0 + 1000.0 * rank)
+        pos[who] += 1
+    sess = {}
+    try:
+        sess["A"] = Sess(transport, base, scripts["A"], subs[0], t0, tdead["A"])
+        sess["B"] = Sess(transport, base, scripts["B"], subs[1], t0, tdead["B"])
+        pos = {"A": 0, "B": 0}
+        for who in info["order"]:
+            await sess[who].step(pos[who])
+            pos[who] += 1
+    finally:
+        for who in ("B", "A"):
+            if who in sess:
+                await sess[who].finish()
+    return sess["A"].result() + sess["B"].result()
 
 
 def canon_step(ad, event, step):
